@@ -529,6 +529,9 @@ def run_case(ctx, c, shape):
     ctx.case("syn_render", [enc_str(c.code), enc_bool(found), enc_str_list(toks or []), SKIP_RAISES, RANGE_POP, WRAP_FLAGS] + opts_fields(c), enc_result(res),
              shape=shape, sample=repr(c))
     evaluate(ctx, c, res, toks)
+    if (shape in ("exhaustive", "exhaustive-guides", "zero-width-crop") and c.line_range is not None and ctx.rng.random() < 0.3) \
+            or (shape in ("random", "gutter", "traceback-frame", "from_path") and ctx.rng.random() < 0.2):
+        render_again(ctx, c, res)
     if shape in ("random", "gutter", "exhaustive") and ctx.rng.random() < 0.25:
         end_to_end(ctx, c, res)
     if shape in ("random", "gutter", "exhaustive", "exotic-leading-whitespace") and ctx.rng.random() < 0.35:
@@ -636,6 +639,24 @@ def styles(ctx, c):
                           "row numbered %d, column %d (%r): style %r, the token/background asks for %r" % (num, j, ch, str(st), str(want)))
                 return
     ctx.check(True, "Syntax(rendered styles)", None, "")
+
+
+def render_again(ctx, c, res):
+    """Rendering is pure: ONE Syntax object, attributes untouched, rendered three times (and its text highlighted twice)
+    must give the same rows every time, the rows a fresh object gives.  Anything the object remembers between renders
+    and then changes in place (a cached Text that `remove_suffix` keeps cropping, a cached width, lexer state) shows here."""
+    syn = c.syntax()
+    outs = [render_rows(syn, c) for _ in range(3)]
+    ctx.check(all(o == res for o in outs), "Syntax(same object rendered again)", c.as_dict(),
+              "renders 1..3 of one unchanged Syntax object: %r — a fresh object gives %r"
+              % ([o[1] if o[0] == "ok" else o for o in outs], res[1] if res[0] == "ok" else res))
+    try:
+        src = c.shown.expandtabs(c.tab_size)
+        a = syn.highlight(src, c.line_range).plain
+        b = syn.highlight(src, c.line_range).plain
+        ctx.check(a == b, "Syntax(same object rendered again)", c.as_dict(), "highlight() called twice on one object returns %r then %r" % (a, b))
+    except RuntimeError:
+        pass
 
 
 def crop_cells(row, width):
@@ -989,13 +1010,21 @@ def gen_pair(rng):
     lib_body = block(rng.choice([0, 1, 3, 7])) + ["def helper(v):"] + [ind + "w = v + %d" % i for i in range(rng.choice([0, 1, 2, 4]))] + \
         [ind + rng.choice(["raise KeyError(v)", "raise ValueError('lib %d' % v)", "return 1 // (v - v)"]), ind + "return v"] + block(rng.choice([0, 0, 2, 5]))
     main_lead = rng.choice([0, 0, 1, 2, 4, 6, 10])
-    call = rng.choice(["flat", "func", "chained"])
+    call = rng.choice(["flat", "func", "chained", "implicit", "implicit-elsewhere", "suppressed", "chained"])
     if call == "flat":
         main_body = block(rng.choice([0, 1, 2, 6])) + ["helper(%d)" % rng.randint(1, 9)] + block(rng.choice([0, 1, 3]))
     elif call == "func":
         main_body = block(rng.choice([0, 2, 5])) + ["def go():", ind + "x = 1", ind + "return helper(x)", "", "go()"] + block(rng.choice([0, 2]))
-    else:
+    elif call == "chained":
         main_body = block(rng.choice([0, 1, 4])) + ["try:", ind + "helper(2)", "except Exception as err:", ind + "raise RuntimeError('outer') from err"] + block(rng.choice([0, 2]))
+    elif call == "implicit":  # no `from`: __context__ only; the two exceptions are raised in different files
+        main_body = block(rng.choice([0, 1, 4])) + ["try:", ind + "helper(2)", "except Exception:"] + [ind + "z = %d" % i for i in range(rng.choice([0, 1, 3]))] + \
+            [ind + "raise RuntimeError('while handling')"] + block(rng.choice([0, 2]))
+    elif call == "implicit-elsewhere":  # the handler fails inside another function, three levels of implicit chaining
+        main_body = block(rng.choice([0, 2])) + ["def cleanup():", ind + "return {}['missing']", "", "try:", ind + "try:", ind * 2 + "helper(3)", ind + "except Exception:",
+                                                 ind * 2 + "cleanup()", "except Exception:", ind + "raise TypeError('third')"] + block(rng.choice([0, 1]))
+    else:  # `from None`: the context is suppressed, one exception only
+        main_body = block(rng.choice([0, 1, 4])) + ["try:", ind + "helper(2)", "except Exception:", ind + "raise RuntimeError('alone') from None"] + block(rng.choice([0, 2]))
     end = rng.choice(["\n", "\n", "", "\n\n"])
     return "\n" * lib_lead + "\n".join(lib_body) + end, "\n" * main_lead + "\n".join(main_body) + rng.choice(["\n", ""]), call
 
@@ -1094,6 +1123,10 @@ def traceback_cases(ctx, rng):
             return
         why, finding = eval_traceback(out, frames, extra, ww, ig, src, path)
         ctx.check(why is None, site, inp, why or "", finding=finding)
+        if not show_locals:
+            why = eval_chain(out, info[1])
+            ctx.note("tb:chain-length=%d" % len(exception_chain(info[1])))
+            ctx.check(why is None, "Traceback(exception chain)", inp, why or "")
 
     def edge_round(i):
         """Frames whose file changed under the traceback: gone, emptied, too short for the frame's line; locals shown."""
@@ -1181,6 +1214,70 @@ def traceback_cases(ctx, rng):
         except OSError:
             pass
     ctx.flush()
+
+
+def exception_chain(exc):
+    """The exceptions a traceback shows, OLDEST first, each with the (filename, lineno) frames of ITS OWN __traceback__ and
+    how the next (newer) one is linked to it — walked here from the exception objects, not taken from rich's Trace."""
+    import traceback as pytb
+
+    chain = []
+    seen = set()
+    link = None
+    while exc is not None and id(exc) not in seen:
+        seen.add(id(exc))
+        frames = [(os.path.abspath(f.f_code.co_filename) if not f.f_code.co_filename.startswith("<") else f.f_code.co_filename, ln)
+                  for f, ln in pytb.walk_tb(exc.__traceback__)]
+        chain.append((type(exc).__name__, frames, link))
+        if exc.__cause__ is not None and exc.__cause__.__traceback__ is not None:
+            exc, link = exc.__cause__, "cause"
+        elif exc.__context__ is not None and exc.__context__.__traceback__ is not None and not exc.__suppress_context__:
+            exc, link = exc.__context__, "context"
+        else:
+            exc = None
+    chain.reverse()
+    # after reversing, entry k's `link` says how entry k (older) hangs under entry k-1... re-express per older entry
+    out = []
+    for k, (name, frames, _l) in enumerate(chain):
+        nxt = chain[k][2]  # link recorded when we stepped from the newer exception TO this one
+        out.append((name, frames, nxt))
+    return out
+
+
+def eval_chain(out, exc):
+    """Under each exception's panel: exactly the frames of that exception's own traceback, then `Type: message`, and between
+    two panels the sentence that matches how the newer exception is linked to the older one."""
+    want = exception_chain(exc)
+    panels, cur, tails = [], None, []
+    for r in out.split("\n"):
+        if r.startswith("╭"):
+            cur = []
+        elif r.startswith("╰") and cur is not None:
+            panels.append(cur)
+            tails.append([])
+            cur = None
+        elif cur is not None:
+            m = BORDER_RE.match(r)
+            if m:
+                h = HEADER_RE.match(m.group(1).rstrip(" "))
+                if h:
+                    cur.append((h.group(1), int(h.group(2))))
+        elif panels and r.strip():
+            tails[-1].append(r.strip())
+    got = [(p, t) for p, t in zip(panels, tails)]
+    if len(got) != len(want):
+        return "%d exception panels shown, the chain has %d exceptions (%r)" % (len(got), len(want), [w[0] for w in want])
+    for k, ((frames_shown, tail), (name, frames, link)) in enumerate(zip(got, want)):
+        frames = [f for f in frames if not f[0].startswith("<")]
+        if frames_shown != frames:
+            return "under exception %d (%s) the frames %r are shown; its own traceback has %r" % (k + 1, name, frames_shown, frames)
+        if not tail or not tail[0].startswith(name + ":"):
+            return "after the panel of exception %d the line %r is shown, expected '%s: …'" % (k + 1, tail[:1], name)
+        if k + 1 < len(want):
+            phrase = "direct cause" if link == "cause" else "During handling"
+            if not any(phrase in t for t in tail[1:]):
+                return "between exception %d and %d the text %r does not say %r" % (k + 1, k + 2, tail[1:], phrase)
+    return None
 
 
 def strip_locals(srows):
@@ -1448,7 +1545,9 @@ MANIFEST = {
     "by one cell with line numbers and an explicit code_width — witness); guides_only_overdraw_indent (as many lines out as in); "
     "traceback_marks_failing_line (exactly one marked row, numbered lineno, showing line lineno, for every extra_lines / leading blank lines / "
     "file length / indent guides); render_history_independent + stack_cache_transparent (what a traceback shows depends only on the files as "
-    "they are when it is rendered). Proved for the repaired variant; `old_*` witnesses (decide) for the three defects. Tie: every run renders "
+    "they are when it is rendered); render_pure / render_pure_rows (any number of renders of ONE Syntax object answer what a fresh one "
+    "answers; witness cached_text_would_decay: a Text remembered on the instance and cropped in place loses a range-ending blank line from "
+    "the second render on). Proved for the repaired variant; `old_*` witnesses (decide) for the three defects. Tie: every run renders "
     "~30k real Syntax objects (5 lexers incl. unknown, every option axis incl. dedent, bounded-exhaustive sources <=4 over "
     "{a,space,newline,tab,wide} x 10 range shapes, every non-ASCII/control whitespace at line starts, zero-width characters at the crop edge) "
     "through a real Console and compares ALL rows character for character with the model fed the real Pygments token stream — word-wrapped "
@@ -1456,7 +1555,9 @@ MANIFEST = {
     "character; helper functions compared exhaustively on small alphabets; Syntax.from_path; Console.print end to end; __rich_measure__; "
     "generated raising modules through Traceback (fresh paths; histories over rewritten paths; files gone / emptied / too short; show_locals; "
     "chained exceptions; SyntaxError stacks) checked against the files read at that moment; every case re-rendered later in shuffled order and "
-    "through one reused Syntax object; plus direct evaluation of the statement (characters AND styles) on rich's own output.",
+    "through one reused Syntax object, and the SAME unchanged object rendered three times (ranges ending on blank lines included); under every "
+    "exception header of a chained traceback exactly the frames of that exception's own __traceback__ (chain walked from the exception "
+    "objects: explicit, implicit, three-level, suppressed) and the matching link sentence; plus direct evaluation of the statement (characters AND styles) on rich's own output.",
     "note": "PARTIAL where stated: (1) the Pygments lexer and textwrap.dedent are parameters (contract checked per case, not proved); (2) theorems "
     "assume a clean shown text (no BS/VT/FF/CR, no BOM), range end >= 0, tab_size >= 1 with indent guides, start_line >= 0, and room to write a "
     "row under word wrap; (3) the folding of word-wrapped lines is C02's model/theorems (used here row by row, not re-proved); the 5-15 of "
